@@ -26,17 +26,18 @@
 -/
 import Rbgp.Rib.ProofsC15
 import Rbgp.Rib.StepAll
+import Rbgp.Rib.RefProofs
 namespace Rbgp.Rib.PropsC15
 open Rbgp.Rib
 
 /-! ## 0. The reference checker -/
 
-/-- **C15, partial master theorem.**  For every well-formed case the codecs accept (`PurgeCtrOk`) with
+/-- **C15, partial master theorem.**  For every case the codecs accept (`Case.Good`, `PurgeCtrOk`) with
     fewer than 2^63 steps and one session per limited peer, and both profiles, the C15 reference
     checker accepts the observation of the model's run. -/
-theorem check_run_ok_partial (p : Profile) (c : Case) (g : Nat → Fam) (h : c.WFWith g) (hpc : c.PurgeCtrOk)
+theorem check_run_ok_partial (p : Profile) (c : Case) (g : Nat → Fam) (h : c.Good g) (hpc : c.PurgeCtrOk)
     (hsh : c.Short) (hone : c.OneSession) : SpecC15.check c (observe p c) = .ok :=
-  C15.check_run_ok_partial allSound p h hpc hsh hone
+  C15.check_run_ok_partial allSound refSound p h hpc hsh hone
 
 /-- the full-strength statement: the checker accepts the run of EVERY well-formed case -/
 def C15_full : Prop := ∀ (p : Profile) (c : Case), c.WF → SpecC15.check c (observe p c) = .ok
@@ -118,7 +119,14 @@ theorem state_eq_recount (p : Profile) (c : Case) (g : Nat → Fam) (h : c.WFWit
   intro tr htr f
   have hr := (runFrom_inv allSound p c.ops h {} (inv_empty c g) tr htr).rib f
   refine ⟨?_, ?_, ?_, fun nd hnd => (hr.dest nd hnd).nonEmpty⟩
-  · rw [nonEmpty_filter_eq hr]; rfl
+  · have : ((tr.1.rib f).dests.filter fun nd => !nd.2.entries.isEmpty) = (tr.1.rib f).dests := by
+      apply List.filter_eq_self.mpr
+      intro nd hnd
+      have := (hr.dest nd hnd).nonEmpty
+      cases he : nd.2.entries with
+      | nil => exact absurd he this
+      | cons a l => rfl
+    rw [this]; rfl
   · show ((tr.1.rib f).dests.flatMap fun nd => nd.2.entries).length = _
     rw [List.length_flatMap]
   · show (((tr.1.rib f).dests.flatMap fun nd => nd.2.entries).filter fun e => !e.filtered).length = _
@@ -276,14 +284,20 @@ theorem exCase_purge : exCase.PurgeCtrOk := by
   rcases hop with rfl | rfl | rfl | rfl | rfl | rfl <;> try trivial
   intro i hi
   cases hi
-  exact ⟨exS0, rfl, rfl, by decide⟩
+  exact ⟨exS0, rfl, rfl, rfl, by decide⟩
 
 theorem exCase_short : exCase.Short := by decide
 theorem exCase_one : exCase.OneSession := by decide
 
 /-- the hypotheses of `check_run_ok_partial` are satisfiable -/
+theorem exCase_good : exCase.Good (fun _ => .v4) := by
+  refine ⟨exCase_wf, ?_⟩
+  intro op hop
+  simp only [exCase, List.mem_cons, List.not_mem_nil, or_false] at hop
+  rcases hop with rfl | rfl | rfl | rfl | rfl | rfl <;> first | rfl | trivial
+
 example : SpecC15.check exCase (observe .debug exCase) = .ok :=
-  check_run_ok_partial .debug exCase _ exCase_wf exCase_purge exCase_short exCase_one
+  check_run_ok_partial .debug exCase _ exCase_good exCase_purge exCase_short exCase_one
 
 /-- ... and the checker's verdict on the example, evaluated -/
 example : SpecC15.check exCase (observe .release exCase) = .ok := by decide
